@@ -72,6 +72,8 @@ def lockset_units(prop):
 #: which unit families each property draws on
 FAMILIES = {
     "C36": ["timeconv"],
+    "C31": ["evloop"],
+    "C34": ["evloop"],
     "C14": ["early", "op", "srcfac", "own", "class", "subscribe", "tramp"],
     "C02": ["own", "class", "subscribe"],
     "C03": ["own", "class", "subscribe"],
@@ -127,6 +129,8 @@ def units_for(prop, tier):
         us.append({"runner": "replay", "prop": prop, "id": "reactivex/subject/replaysubject.py::ReplaySubject"})
     if "timedextra" in fams:
         us.append({"runner": "timedextra", "prop": prop, "id": f"timed-operators-not-under-contract/{prop}"})
+    if "evloop" in fams:
+        us.append({"runner": "evloop", "prop": prop, "id": "reactivex/scheduler/eventloopscheduler.py::EventLoopScheduler"})
     if "timeconv" in fams:
         us.append({"runner": "timeconv", "prop": prop, "id": "reactivex/scheduler/scheduler.py::Scheduler.time-conversions"})
     if "early" in fams:
